@@ -26,8 +26,8 @@ CONSTANTS Keys, TraceFile
 
 Trace == ndJsonDeserialize(TraceFile)
 
-VARIABLES l, adm, now, faulted, twotier
-vars == <<l, adm, now, faulted, twotier>>
+VARIABLES l, adm, now, faulted, twotier, retry
+vars == <<l, adm, now, faulted, twotier, retry>>
 
 Ev == Trace[l]
 
@@ -45,15 +45,22 @@ ReqOfX(x) == Req(x.op, x.k, x.v, x.f, x.t)
 Uncertain(res) == res[1] \in {"error", "closed", "timeout", "malformed"}
 
 \* entries of A that explain the observed reply
-Explaining(A, r, res) == {w \in A : Class(EApply(w, now, r)[2]) = res}
+Explaining0(A, r, res) == {w \in A : Class(EApply(w, now, r)[2]) = res}
 After1(A, r) == {View(EApply(w, now, r)[1], now) : w \in A}
+
+\* A connection pool that re-submits a request after a lost connection gives at-least-once
+\* semantics: the request may already have been applied j times (j <= retry) when the attempt
+\* whose reply the caller sees is made.  Iter(A, r, j) = worlds after j earlier applications.
+RECURSIVE Iter(_, _, _)
+Iter(A, r, j) == IF j = 0 THEN A ELSE After1(Iter(A, r, j - 1), r)
+Explaining(A, r, res) == UNION {Explaining0(Iter(A, r, j), r, res) : j \in 0..retry}
 
 \* after a backend fault a read may also come back empty (C10: "the correct value or a miss")
 MissOK(r, res) == faulted /\ r.m \in {"get", "gat"} /\ res = <<"miss">>
 
 \* new admissible set for one key after request r was answered with res
 Narrow(A, r, res) ==
-  IF Uncertain(res) THEN A \cup After1(A, r) \cup {None}
+  IF Uncertain(res) THEN UNION {Iter(A, r, j) : j \in 0..(retry + 1)} \cup {None}
   ELSE IF MissOK(r, res) /\ Explaining(A, r, res) = {} THEN A
   \* after a fault the tiers may disagree about an unacknowledged write: a read does not settle it
   ELSE IF faulted /\ IsRead(r) /\ Explaining(A, r, res) # {} THEN A
@@ -70,7 +77,7 @@ MGetBad(a, ks, rs) ==
 
 Expected(A, r) == {Class(EApply(w, now, r)[2]) : w \in A}
 
-Init == l = 1 /\ adm = [k \in Keys |-> {None}] /\ now = 0 /\ faulted = FALSE /\ twotier = TRUE
+Init == l = 1 /\ adm = [k \in Keys |-> {None}] /\ now = 0 /\ faulted = FALSE /\ twotier = TRUE /\ retry = 0
 
 (***************************************************************************)
 (* Tier checks, on the contents observed after the event.                  *)
@@ -105,6 +112,7 @@ Resync(a, t, flt) ==
 Reset ==
   /\ Ev.ev = "reset"
   /\ adm' = [k \in Keys |-> {None}] /\ now' = 0 /\ faulted' = FALSE /\ twotier' = Ev.twotier
+  /\ retry' = IF "retry" \in DOMAIN Ev THEN Ev.retry ELSE 0
 
 Op ==
   /\ Ev.ev = "op"
@@ -114,7 +122,7 @@ Op ==
           /\ \A k \in bad : Report("ReplyOK", k, Expected(adm[k], Req("get", k, <<>>, 0, 0)), res)
           /\ TierChecks(adm, now, faulted)
           /\ adm' = Resync(adm, now, faulted)
-          /\ UNCHANGED <<now, faulted, twotier>>
+          /\ UNCHANGED <<now, faulted, twotier, retry>>
      ELSE LET r == ReqOfX(x)
               a2 == [adm EXCEPT ![x.k] = Narrow(@, r, res)]
               f2 == faulted \/ Uncertain(res)
@@ -123,19 +131,19 @@ Op ==
           /\ TierChecks(a2, now, f2)
           /\ adm' = Resync(a2, now, f2)
           /\ faulted' = f2
-          /\ UNCHANGED <<now, twotier>>
+          /\ UNCHANGED <<now, twotier, retry>>
 
 \* the tiers were pre-loaded by the harness: the reference starts as the authoritative tier
 InitEv ==
   /\ Ev.ev = "init"
   /\ LET o1 == Obs(Ev.l1)  o2 == Obs(Ev.l2)  auth == IF twotier THEN o2 ELSE o1 IN
      adm' = [k \in Keys |-> {View(auth[k], now)}]
-  /\ UNCHANGED <<now, faulted, twotier>>
+  /\ UNCHANGED <<now, faulted, twotier, retry>>
 
 Evict ==
   /\ Ev.ev = "evict"
   /\ TierChecks(adm, now, faulted)
-  /\ UNCHANGED <<adm, now, faulted, twotier>>
+  /\ UNCHANGED <<adm, now, faulted, twotier, retry>>
 
 Tick ==
   /\ Ev.ev = "tick"
@@ -143,13 +151,13 @@ Tick ==
   /\ LET a2 == [k \in Keys |-> {View(w, now + 1) : w \in adm[k]}] IN
      /\ TierChecks(a2, now + 1, faulted)
      /\ adm' = Resync(a2, now + 1, faulted)
-  /\ UNCHANGED <<faulted, twotier>>
+  /\ UNCHANGED <<faulted, twotier, retry>>
 
 \* a fault was injected below the orchestrator: from here on the tiers may disagree
 FaultEv ==
   /\ Ev.ev = "fault"
   /\ faulted' = TRUE
-  /\ UNCHANGED <<adm, now, twotier>>
+  /\ UNCHANGED <<adm, now, twotier, retry>>
 
 Next == l <= Len(Trace) /\ l' = l + 1 /\ (Reset \/ InitEv \/ Op \/ Evict \/ Tick \/ FaultEv)
 
